@@ -15,7 +15,14 @@
  * (buf, buflen, minlen, callback, cookie) unchanged to network_read / network_write on the
  * descriptor named by nri:<fd> / nwi:<fd> (the contract documented for the TLS layer: "behave as
  * network_read, but take a context instead of a descriptor"); no allocation, no logging of its
- * own.  Everything else is identical, so the log of a scenario is the same in both modes. */
+ * own.  Everything else is identical, so the log of a scenario is the same in both modes.
+ *
+ * BUILD CONFIGURATIONS: areas/net.py builds this driver twice - as the host selects (MSG_NOSIGNAL
+ * passed to send) and with network_write.c compiled -DPOSIXFAIL_MSG_NOSIGNAL on a host made to look
+ * as if it had no MSG_NOSIGNAL (harness/net_no_msg_nosignal.h: the documented workaround
+ * configuration: flag 0, SIGPIPE ignored around send, errno saved over the restoring signal()).
+ * The case lines, the model and the expected logs are the same for both; the tokens
+ * "sends= nosig= ign= sigrest=" after "end" say how send() was called. */
 #include <sys/types.h>
 #include <sys/socket.h>
 #include <sys/wait.h>
@@ -42,6 +49,7 @@ void fk_show(char *, const uint8_t *, size_t);
 void fk_register_buf(int, const void *, size_t);
 int fk_feed(int, int, const char *);
 void fk_trailer(void);
+void fk_send_stats(unsigned long *, unsigned long *, unsigned long *, int *);
 void fk_set_outcomes(const char *);
 int fk_open_sockets(void);
 size_t fk_live_blocks(void);
@@ -381,6 +389,12 @@ static void case_sc(char ** tok, int ntok)
 	fk_fail_at = 0;
 	{ unsigned long a = fk_activity; events_run(); fk_log("nfds=%lu", fk_last_nfds); if (a != fk_activity) fk_log("late-activity"); }
 	for (k = 0; k < nreqs; k++) __real_free(reqs[k].buf);
+	{
+		/* how send() was called: judged by areas/net.py against the build configuration */
+		unsigned long ns, nnosig, nign; int rest;
+		fk_send_stats(&ns, &nnosig, &nign, &rest);
+		fk_log("sends=%lu nosig=%lu ign=%lu sigrest=%d", ns, nnosig, nign, rest);
+	}
 	tail_af();
 }
 
